@@ -20,10 +20,14 @@ def plan(tier):
     return [("fullA", 3), ("fullB", 3), ("fullC", 3), ("fullD", 3), ("fullE", 3), ("fullDcr", 3), ("fullAcrlf", 3)]
 
 
-def run_oracle(ctx, plan_override=None):
+def run_oracle(ctx, plan_override=None, part="default"):
+    """part = "default": skeleton, inline structure, HTML under the default configuration (C06);
+       part = "cfg": additionally the HTML under soft-breaks-as-spaces / hardened / IgnoreRaw (C10)."""
     ctx.build_harness()
     jobs = [dict(module="Full", cfg_text=cfg(s, n), name="Full_%s%d" % (s, n), workers=8, timeout=6000) for s, n in (plan_override or plan(ctx.tier))]
     rs = ctx.tlc_many(jobs, parallel=3)
+    import vlib
+    vlib.GOENV["VERIF_FULL_PART"] = part          # also seen by the fresh-process confirmation below
     rc, res, _ = ctx.harness(["full"] + [r["out"] for r in rs], timeout=6000)
     ctx.absorb(res)
     conf = confirm_with(ctx, "full")
